@@ -66,7 +66,7 @@ Lemma uniform_tightening (lo hi slo shi : Q) : Qmax lo slo < Qmin hi shi ->
 Proof. intro H. apply good_limits. exact H. Qed.
 Local Close Scope Q_scope.
 
-(* ---------- the configuration mix-up: parameter 0 sits at KN.s and at KN.inner.a (class K2), and is looked up under
+(* ---------- HISTORY (before a8a9b5b) the configuration mix-up: parameter 0 sits at KN.s and at KN.inner.a (class K2), and is looked up under
    (K2, "s"), which is neither; it gets K2.s's width 3 instead of KN.s's 1/4 * value or K2.a's 1/8 ---------- *)
 Definition ex_shared : node Q :=
   NModel "KN" ["inner"; "s"; "a"]
@@ -79,12 +79,12 @@ Definition ex_shared_cfg : config Q :=
 Definition ex_shared_specs : list (nat * spec Q) :=
   [(0%nat, Build_spec Q FUniform (-1)%Q 1%Q 0%Q 0%Q None); (1%nat, Build_spec Q FUniform 0%Q 2%Q 0%Q 0%Q None)].
 
-Lemma config_own_refuted :
+Lemma config_own_legacy_refuted :
   wf Q ex_shared /\
   walk Q ex_shared = [(["inner"; "a"], 0%nat); (["inner"; "s"], 1%nat); (["s"], 0%nat)] /\
   PAFC01.Proofs.node_at Q ["inner"] ex_shared = Some (NModel "K2" ["a"; "s"] [("a", NPrior 0%nat); ("s", NPrior 1%nat)]) /\
   class_of Q 0 ex_shared = Some "K2" /\ last_path Q 0 ex_shared = Some ["s"] /\ cfg_name ["s"] = Ok "s" /\
-  (own_place_class = false ->          (* the code as it is: lookup_class = prior_class_dict *)
+  (own_place_class = false ->          (* the code before a8a9b5b: lookup_class = prior_class_dict *)
   exists n' s0 s1,
     qpass (-1000)%Q 1000%Q ex_shared_cfg ex_shared_specs (MMeans None None false [(1 # 2)%Q; 1%Q]) ex_shared
       = Ok (n', [(0%nat, s0); (1%nat, s1)]) /\
@@ -95,7 +95,7 @@ Proof.
   first [discriminate Flag | (eexists; eexists; eexists; split; [vm_compute; reflexivity|]; split; reflexivity)].
 Qed.
 
-(* the repair variant on the same model: parameter 0 is configured under (KN, "s"), the holder and the name of its last
+(* the code as it is (a8a9b5b) on the same model: parameter 0 is configured under (KN, "s"), the holder and the name of its last
    place: width 1/4 * |value| and limits -5..5 *)
 Lemma config_one_place_repaired :
   own_place_class = true ->
